@@ -1016,8 +1016,10 @@ pub fn replay_json<M: Model>(models: &[(String, std::sync::Arc<M>)], v: &Value) 
         .as_array()
         .map(|a| a.iter().map(|x| x.as_u64().unwrap_or(0) as usize).collect())
         .unwrap_or_default();
-    for (l, m) in models {
-        if label.starts_with(l.as_str()) {
+    // model names may extend one another ("links=2", "links=2 tracker-fed"): the longest matching name is meant
+    let best = models.iter().filter(|(l, _)| label.starts_with(l.as_str())).max_by_key(|(l, _)| l.len());
+    for (_l, m) in best.into_iter() {
+        {
             let r1 = replay(&**m, init, &path);
             let r2 = replay(&**m, init, &path);
             let k1 = r1.as_ref().map(|x| (x.0, x.1.key.clone()));
